@@ -116,7 +116,7 @@ def run(ctx):
         wname, wobj = gen_weighting(rng)
         wb = {"history": {"commits": [len(c) for c in h["commits"]], "deletes": len(h["deletes"]),
                           "blocklimit": h["blocklimit"], "storage": h["storage"]}, "case_idx": idx, "weighting": wname}
-        ok, built = ctx.guard("c05.build", wb, model.build, h, field_boosts=rng.random() < 0.5)
+        ok, built = ctx.guard("c05.build", wb, model.build, h, field_boosts=rng.choice([False, False, True, True, 0.1, 0.7]))
         if not ok:
             continue
         sig = model.layout_sig(h)
